@@ -561,7 +561,7 @@ class CasXmiSerializer:
             # a number at the end, e.g. `type0`
 
             new_prefix = raw_prefix
-            if raw_prefix in self._nsmap:
+            while new_prefix in self._nsmap:
                 suffix = self._duplicate_namespaces[raw_prefix]
                 self._duplicate_namespaces[raw_prefix] += 1
                 new_prefix = raw_prefix + str(suffix)
